@@ -4471,4 +4471,69 @@ theorem minmax_snoc (s : ISeq) (x : ℤ) : ilen s ≥ 1 →
   have := minmax_iapp s [x] ⟨h, by simp [ilen]⟩
   simpa [iapp, isnoc, minof, maxof] using this
 
+
+/-! # Twentieth batch: more `iofarr` -/
+
+/-- `n <= 0 -> iofarr(A, n) == inil` -/
+theorem iofarr_nil (A : ℤ → ℤ) (n : ℤ) : n ≤ 0 → iofarr A n = inil := by
+  intro h
+  have : n.toNat = 0 := by omega
+  simp [iofarr, inil, this]
+
+/-- (p) `m >= 1 -> iofarr(A, m) == isnoc(iofarr(A, m - 1), Select(A, m - 1))` -/
+theorem iofarr_pred (A : ℤ → ℤ) (m : ℤ) : m ≥ 1 → iofarr A m = isnoc (iofarr A (m - 1)) (A (m - 1)) := by
+  intro h
+  have h1 : m.toNat = (m - 1).toNat + 1 := by omega
+  have h2 : (((m - 1).toNat : ℕ) : ℤ) = m - 1 := by omega
+  unfold iofarr isnoc
+  rw [h1, List.range_succ, List.map_append, List.map_singleton, h2]
+
+/-- (g) `k >= m -> iofarr(Store(A, k, x), m) == iofarr(A, m)` -/
+theorem iofarr_store_ge (A : ℤ → ℤ) (k x m : ℤ) :
+    k ≥ m → iofarr (Function.update A k x) m = iofarr A m := by
+  intro h
+  unfold iofarr
+  apply List.map_congr_left
+  intro i hi
+  rw [List.mem_range] at hi
+  exact Function.update_of_ne (by omega) _ _
+
+/-! ## rows / columns of a mapping group (`mvar` arbitrary); schemas found alongside pass 20 -/
+
+section Mapping
+
+variable (mvar : ℤ → ℤ → ℤ → ℤ)
+
+/-- the variables `p[u,1..m]`, in order -/
+def mrow (g u m : ℤ) : ISeq := (List.range m.toNat).map (fun (j : ℕ) => mvar g u ((j : ℤ) + 1))
+/-- the variables `p[1..n,v]`, in order -/
+def mcol (g v n : ℤ) : ISeq := (List.range n.toNat).map (fun (j : ℕ) => mvar g ((j : ℤ) + 1) v)
+
+/-- `m >= 0 -> ilen(mrow(g, u, m)) == m` -/
+theorem ilen_mrow (g u m : ℤ) : m ≥ 0 → ilen (mrow mvar g u m) = m := by
+  intro h; simp [ilen, mrow]; omega
+/-- `n >= 0 -> ilen(mcol(g, v, n)) == n` -/
+theorem ilen_mcol (g v n : ℤ) : n ≥ 0 → ilen (mcol mvar g v n) = n := by
+  intro h; simp [ilen, mcol]; omega
+
+/-- `And(0 <= i, i < m) -> iget(mrow(g, u, m), i) == mvar(g, u, i + 1)` -/
+theorem iget_mrow (g u m i : ℤ) : (0 ≤ i ∧ i < m) → iget (mrow mvar g u m) i = mvar g u (i + 1) := by
+  rintro ⟨h0, h1⟩
+  have hlt : i.toNat < m.toNat := by omega
+  have hi : ((i.toNat : ℕ) : ℤ) = i := by omega
+  unfold iget mrow
+  rw [List.getD_eq_getElem?_getD, List.getElem?_map, List.getElem?_range hlt]
+  simp [hi]
+
+/-- `And(0 <= i, i < n) -> iget(mcol(g, v, n), i) == mvar(g, i + 1, v)` -/
+theorem iget_mcol (g v n i : ℤ) : (0 ≤ i ∧ i < n) → iget (mcol mvar g v n) i = mvar g (i + 1) v := by
+  rintro ⟨h0, h1⟩
+  have hlt : i.toNat < n.toNat := by omega
+  have hi : ((i.toNat : ℕ) : ℤ) = i := by omega
+  unfold iget mcol
+  rw [List.getD_eq_getElem?_getD, List.getElem?_map, List.getElem?_range hlt]
+  simp [hi]
+
+end Mapping
+
 end CnfSem
